@@ -272,6 +272,35 @@ int mkdir(const char *path, mode_t mode) {
   return r;
 }
 
+// ---------------------------------------------------------------- rename / unlink
+// (the pinned CLI writes its outputs in place; an implementation that writes a temporary
+// file and renames it meets its faults here)
+int rename(const char *from, const char *to) {
+  init();
+  REAL(rename);
+  if (!in_tree(to) && !in_tree(from)) return real_rename(from, to);
+  long k = counter++;
+  if (simple_fault(k, "rename", to)) return -1;
+  int r = real_rename(from, to);
+  int e = errno;
+  trace(k, "rename", to, r, r < 0 ? e : 0, NULL);
+  errno = e;
+  return r;
+}
+
+int unlink(const char *path) {
+  init();
+  REAL(unlink);
+  if (!in_tree(path)) return real_unlink(path);
+  long k = counter++;
+  if (simple_fault(k, "unlink", path)) return -1;
+  int r = real_unlink(path);
+  int e = errno;
+  trace(k, "unlink", path, r, r < 0 ? e : 0, NULL);
+  errno = e;
+  return r;
+}
+
 int stat64(const char *path, struct stat64 *st) {
   init();
   REAL(stat64);
